@@ -473,7 +473,9 @@ def rule_semantics_of_helpers(repo, rep):
         f = t.func(fnm)
         ret = sorted((r for r in ast.walk(f) if isinstance(r, ast.Return)), key=lambda r: r.lineno)[-1]
         cj = [norm(x) for x in conjuncts(ret.value)]
-        ok = set(cj) == {"self.scale_f32 == other.scale_f32", "self.zero_point == other.zero_point"}
+        from ..astutil import same_texts
+
+        ok = same_texts(cj, ["self.scale_f32 == other.scale_f32", "self.zero_point == other.zero_point"])
         rep.check(ok, "C16-e", f"ethosu/vela/tensor.py:{fnm}", "scaling equality is exact equality of scale and zero point ('quantization parameters must match')",
                   f"returns `{norm(ret.value)}`: operators whose parameters differ slightly are accepted by the 'must match' constraints although the documented rule rejects them")
     # (3) activation fusing
